@@ -222,6 +222,28 @@ op("dot_like", "df", lambda x: (x["a"] * x["b"]).sum(), tier=3)
 op("min_max", "df", lambda x: x["a"].max() - x["a"].min(), tier=3)
 
 
+
+# --------------------------------------------------------------------------
+# the same operator class applied twice to ONE frame with different parameters, combined in
+# one query: helper task keys must be unique per expression, not per input frame
+# --------------------------------------------------------------------------
+op("twice_repart", "any", lambda x: _concat([x.repartition(npartitions=5), x.repartition(npartitions=4)]), pd=lambda x: _concat([x, x]), tier=2, tags=("twice",))
+op("twice_repart_unknown", "any", lambda x: (lambda y: _concat([y.repartition(npartitions=5), y.repartition(npartitions=7)]))(x.clear_divisions()), pd=lambda x: _concat([x, x]), tier=2, tags=("twice",))
+op("twice_repart_fewer", "any", lambda x: _concat([x.repartition(npartitions=2), x.repartition(npartitions=1)]), pd=lambda x: _concat([x, x]), tier=2, tags=("twice",))
+op("twice_shuffle", "df", lambda x: _concat([x.shuffle("a"), x.shuffle("d")]), pd=lambda x: _concat([x, x]), order="lose", tier=2, tags=("twice",))
+op("twice_shuffle_np", "df", lambda x: _concat([x.shuffle("a", npartitions=2), x.shuffle("a", npartitions=4)]), pd=lambda x: _concat([x, x]), order="lose", tier=2, tags=("twice",))
+op("twice_sort", "df", lambda x: _concat([x.sort_values("u"), x.sort_values("u", ascending=False)]), tier=2, tags=("twice",))
+op("twice_rolling", "df", lambda x: x["a"].rolling(2).sum() + x["a"].rolling(3).sum(), osens=True, tier=2, tags=("twice",))
+op("twice_merge", "df", lambda x: _concat([x.merge(_T2(x), on="a", how="inner"), x.merge(_T2(x), on="a", how="left")]), order="lose", labels="lose", tier=2, tags=("twice",))
+op("twice_head", "df", lambda x: _concat([_head(x, 2), _head(x, 3)]), pd=lambda x: _concat([x.head(2), x.head(3)]), osens=True, tier=2, tags=("twice",))
+op("twice_loc", "df", lambda x: _concat([x.loc[1:3], x.loc[2:7]]), lsens=True, osens=True, tier=2, tags=("twice",))
+op("twice_reduce", "df", lambda x: x["b"].sum(split_every=2) + x["u"].sum(split_every=3) if not isinstance(x, pd.DataFrame) else x["b"].sum() + x["u"].sum(), tier=2, tags=("twice",))
+op("twice_dropdup", "df", lambda x: _concat([x.drop_duplicates(subset=["a"])[["a"]], x.drop_duplicates(subset=["d"])[["d"]]]), order="lose", labels="lose", tier=2, tags=("twice",))
+op("twice_gb", "df", lambda x: _concat([x.groupby("a")["b"].sum().to_frame(), x.groupby("d")["b"].sum().to_frame()]), order="lose", labels="new", tier=2, tags=("twice",))
+op("twice_cum", "df", lambda x: x["b"].cumsum() + x["b"].cummax(), osens=True, tier=2, tags=("twice",))
+op("twice_partitions", "any", lambda x: _concat([x.partitions[[0]], x.partitions[[1]]]), pd=None, tags=("twice", "daskonly", "psens"), tier=2)
+
+
 def _assign_zz(x):
     y = x.assign(z=x["a"] + 1)
     return y.assign(w=y["z"] * 2)
